@@ -324,13 +324,40 @@ type inode struct {
 type virtContent struct {
 	length int64
 	at     func(off int64, p []byte) // fills p with the bytes at [off, off+len(p)), all inside length
+	// writable: bytes appended behind the procedural part live in inode.data (hybrid file: a huge
+	// procedural prefix followed by an ordinary in-memory tail)
+	writable bool
 }
 
 func (in *inode) size() int64 {
 	if in.virt != nil {
-		return in.virt.length
+		return in.virt.length + int64(len(in.data))
 	}
 	return int64(len(in.data))
+}
+
+// readVirt fills p with the bytes at [off, off+len(p)) of a (hybrid) procedural file; the range is inside the file.
+func (in *inode) readVirt(off int64, p []byte) {
+	v := in.virt
+	if off < v.length {
+		n := int64(len(p))
+		if off+n > v.length {
+			n = v.length - off
+		}
+		v.at(off, p[:n])
+		p = p[n:]
+		off += n
+	}
+	if len(p) > 0 {
+		copy(p, in.data[off-v.length:])
+	}
+}
+
+// SetVirtualPrefix turns an existing file into a hybrid: its first `length` bytes become procedural
+// (what is there now is dropped), later writes append behind them into memory.
+func (s *SimFS) SetVirtualPrefix(name string, length int64, at func(off int64, p []byte)) {
+	s.SetVirtual(name, length, at)
+	s.files[filepath.Clean(name)].virt.writable = true
 }
 
 // SetVirtual replaces the content of an existing file by procedural content.
@@ -379,6 +406,8 @@ type SimFS struct {
 	// injected I/O error (short write reported as an error)
 	failNext    bool
 	failKeep    int
+	failSync    bool
+	failMeta    int
 	FaultsFired int
 }
 
@@ -686,6 +715,10 @@ func (s *SimFS) Crash() {
 	for n := range s.lockHeld {
 		s.lockHeld[n] = false
 	}
+	for _, in := range s.files {
+		in.open = 0
+	}
+	s.handles = 0
 }
 
 // --- file ---
@@ -740,12 +773,12 @@ func (f *simFile) Read(p []byte) (int, error) {
 	if f.off >= f.in.size() {
 		return 0, io.EOF
 	}
-	if v := f.in.virt; v != nil {
+	if f.in.virt != nil {
 		n := len(p)
-		if int64(n) > v.length-f.off {
-			n = int(v.length - f.off)
+		if int64(n) > f.in.size()-f.off {
+			n = int(f.in.size() - f.off)
 		}
-		v.at(f.off, p[:n])
+		f.in.readVirt(f.off, p[:n])
 		f.off += int64(n)
 		return n, nil
 	}
@@ -767,12 +800,12 @@ func (f *simFile) ReadAt(p []byte, off int64) (int, error) {
 	if off >= f.in.size() {
 		return 0, io.EOF
 	}
-	if v := f.in.virt; v != nil {
+	if f.in.virt != nil {
 		n := len(p)
-		if int64(n) > v.length-off {
-			n = int(v.length - off)
+		if int64(n) > f.in.size()-off {
+			n = int(f.in.size() - off)
 		}
-		v.at(off, p[:n])
+		f.in.readVirt(off, p[:n])
 		if n < len(p) {
 			return n, io.EOF
 		}
@@ -805,8 +838,15 @@ func (f *simFile) Seek(offset int64, whence int) (int64, error) {
 // fail with ENOSPC after keep%len bytes of it were stored: a short write reported as an error.
 func (s *SimFS) ArmWriteFault(keep int) { s.failNext, s.failKeep = true, keep }
 
-// DisarmWriteFault cancels an armed fault that did not fire.
-func (s *SimFS) DisarmWriteFault() { s.failNext = false }
+// DisarmWriteFault cancels armed faults that did not fire.
+func (s *SimFS) DisarmWriteFault() { s.failNext, s.failSync, s.failMeta = false, false, 0 }
+
+// ArmSyncFault makes the next Sync of a segment file fail with EIO (nothing becomes durable by it).
+func (s *SimFS) ArmSyncFault() { s.failSync = true }
+
+// ArmMetaFault makes the k-th (1-based) write to a metadata file (*.pmt) from now on fail with ENOSPC
+// after half of it was stored.
+func (s *SimFS) ArmMetaFault(k int) { s.failMeta = k }
 
 func (f *simFile) write(p []byte, off int64, task int) (int, error) {
 	if f.closed {
@@ -815,8 +855,33 @@ func (f *simFile) write(p []byte, off int64, task int) (int, error) {
 	if !f.writable {
 		return 0, &os.PathError{Op: "write", Path: f.name, Err: os.ErrPermission}
 	}
-	if f.in.virt != nil {
-		return 0, &os.PathError{Op: "write", Path: f.name, Err: os.ErrInvalid}
+	if v := f.in.virt; v != nil {
+		if !v.writable || off < v.length {
+			return 0, &os.PathError{Op: "write", Path: f.name, Err: os.ErrInvalid}
+		}
+		rel := off - v.length
+		if end := rel + int64(len(p)); end > int64(len(f.in.data)) {
+			f.in.data = append(f.in.data, make([]byte, end-int64(len(f.in.data)))...)
+		}
+		copy(f.in.data[rel:], p)
+		f.fs.log(JEntry{Kind: JWrite, Ino: f.in.id, Name: f.name, Off: off, Data: append([]byte(nil), p...)}, task)
+		return len(p), nil
+	}
+	if f.fs.failMeta > 0 && len(p) > 0 && strings.HasSuffix(f.name, ".pmt") {
+		f.fs.failMeta--
+		if f.fs.failMeta == 0 {
+			f.fs.FaultsFired++
+			n := len(p) / 2
+			if n > 0 {
+				end := off + int64(n)
+				if end > int64(len(f.in.data)) {
+					f.grow(end)
+				}
+				copy(f.in.data[off:end], p[:n])
+				f.fs.log(JEntry{Kind: JWrite, Ino: f.in.id, Name: f.name, Off: off, Data: append([]byte(nil), p[:n]...)}, task)
+			}
+			return n, &os.PathError{Op: "write", Path: f.name, Err: syscall.ENOSPC}
+		}
 	}
 	if f.fs.failNext && off >= 512 && len(p) > 0 && strings.HasSuffix(f.name, ".psg") {
 		f.fs.failNext = false
@@ -877,6 +942,11 @@ func (f *simFile) Sync() error {
 	if f.closed {
 		return os.ErrClosed
 	}
+	if f.fs.failSync && strings.HasSuffix(f.name, ".psg") {
+		f.fs.failSync = false
+		f.fs.FaultsFired++
+		return &os.PathError{Op: "sync", Path: f.name, Err: syscall.EIO}
+	}
 	f.fs.log(JEntry{Kind: JSync, Ino: f.in.id, Name: f.name}, task)
 	return nil
 }
@@ -890,10 +960,17 @@ func (f *simFile) Truncate(size int64) error {
 		return &os.PathError{Op: "truncate", Path: f.name, Err: os.ErrPermission}
 	}
 	if v := f.in.virt; v != nil {
-		if size > v.length {
+		switch {
+		case size <= v.length:
+			v.length = size
+			f.in.data = nil
+		case v.writable && size <= f.in.size():
+			f.in.data = f.in.data[:size-v.length]
+		case v.writable:
+			f.in.data = append(f.in.data, make([]byte, size-f.in.size())...)
+		default:
 			return &os.PathError{Op: "truncate", Path: f.name, Err: os.ErrInvalid}
 		}
-		v.length = size
 		f.fs.log(JEntry{Kind: JTruncate, Ino: f.in.id, Name: f.name, Size: size}, task)
 		return nil
 	}
@@ -917,9 +994,9 @@ func (f *simFile) Slice(start, end int64) ([]byte, error) {
 	if end > f.in.size() {
 		return nil, io.EOF
 	}
-	if v := f.in.virt; v != nil {
+	if f.in.virt != nil {
 		b := make([]byte, end-start)
-		v.at(start, b)
+		f.in.readVirt(start, b)
 		return b, nil
 	}
 	if f.fs.cfg.Alias {
